@@ -278,8 +278,18 @@ impl Family for VerdictFam {
                                 if !e.contains(&want) {
                                     return Err(Fail::plain("C10.reason", format!("{tag}: the error does not carry the server's reason {:?}", want)));
                                 }
-                            } else if took > death_ms.unwrap_or(0).max(0) + 0 && took > DEADLINE_MS {
-                                return Err(Fail::plain("C10.dead", format!("{tag}: later than the deadline")));
+                            } else {
+                                // "with an error when the session dies first, and with a timeout error
+                                // otherwise": a call whose session died must report that death - when it
+                                // happens (close() takes at most its 1 s shutdown bound), not by running
+                                // into the 30 s timeout
+                                let d = death_ms.unwrap_or(0);
+                                if took > d + 2_000 || e.contains("timeout") {
+                                    return Err(Fail::plain(
+                                        "C10.dead",
+                                        format!("{tag}: the session died at {d} ms but the call only completed at {took} ms{}", if e.contains("timeout") { " with a timeout error" } else { "" }),
+                                    ));
+                                }
                             }
                         }
                     },
